@@ -12,7 +12,7 @@ use std::sync::atomic::{AtomicBool, AtomicUsize, Ordering};
 use std::sync::{Arc, Mutex};
 use std::time::{Duration, Instant};
 
-pub const SHAPES: &[&str] = &["chain_out", "chain_eph2", "chain_alt", "chain_ephlong", "layers", "layers_eph", "star_in", "star_out", "diamonds", "wide_eph"];
+pub const SHAPES: &[&str] = &["chain_out", "chain_eph2", "chain_alt", "chain_ephlong", "layers", "layers_eph", "star_in", "star_out", "diamonds", "wide_eph", "eph_head"];
 pub const CASCADES: &[&str] = &["build", "noop", "inval_root", "inval_root_collide", "inval_leaf", "fail_root", "abort_mid"];
 
 struct BigGraph {
@@ -187,6 +187,14 @@ fn make_shape(shape: &str, size: usize, collide: bool) -> BigGraph {
                 let c = g.add(Output, &[prev], if i == 0 { d1 } else { big });
                 prev = g.add(Output, &[b, c], big);
                 i += 3;
+            }
+        }
+        "eph_head" => {
+            // one Ephemeral on top of a long chain of Outputs: anything that walks "everything below an Ephemeral" gets deep here
+            let e = g.add(Ephemeral, &[head], d1);
+            let mut prev = e;
+            for _ in 0..size {
+                prev = g.add(Output, &[prev], big);
             }
         }
         "wide_eph" => {
@@ -728,6 +736,17 @@ pub fn run_sweep(thorough: bool, seed: u64, nthreads: usize, deadline: Instant, 
     if thorough {
         // beyond "tens of thousands": probes the known stack limit of all-Ephemeral chains (known_findings.txt)
         cases.push(("chain_ephlong".to_string(), 60000, "build".to_string()));
+        // "scales easily to a few 100.000 jobs" (README): 100 000 jobs for the shapes without long runs of Ephemerals
+        for sh in ["chain_out", "chain_alt", "layers", "star_in", "star_out", "diamonds", "eph_head"] {
+            for c in CASCADES {
+                cases.push((sh.to_string(), 100_000 + (seed as usize % 7) * 1000, c.to_string()));
+            }
+        }
+        for sh in ["chain_out", "eph_head", "layers"] {
+            for c in CASCADES {
+                cases.push((sh.to_string(), 300_000 + (seed as usize % 7) * 1000, c.to_string()));
+            }
+        }
     }
     // large first
     cases.sort_by_key(|c| std::cmp::Reverse(c.1));
@@ -736,7 +755,7 @@ pub fn run_sweep(thorough: bool, seed: u64, nthreads: usize, deadline: Instant, 
     let cases = Arc::new(cases);
     let results: Arc<Mutex<Vec<(usize, String, Option<i32>, bool)>>> = Arc::new(Mutex::new(vec![]));
     let mut handles = vec![];
-    let per_case = Duration::from_secs(if thorough { 900 } else { 240 });
+    let per_case = Duration::from_secs(if thorough { 1500 } else { 240 });
     for _ in 0..nthreads.min(12) {
         let next = next.clone();
         let cases = cases.clone();
